@@ -240,16 +240,22 @@ class SimSource:
         return self._a.shape == self._orig.shape and self._a.tobytes() == self._orig.tobytes()
 
     def __dask_tokenize__(self):
-        if not self.tokenizable:
-            raise TypeError("untokenizable SimSource")
         from dask.tokenize import tokenize
 
         return ("SimSource", self.name, tokenize(self._orig), getattr(self, "chunks", None))
 
     def __reduce__(self):
-        if not self.tokenizable:
-            raise TypeError("cannot pickle untokenizable SimSource")
         return (_rebuild_source, (self._orig, getattr(self, "chunks", None), self.name))
+
+
+class OpaqueSimSource(SimSource):
+    """A source with no deterministic token (like an h5py dataset): no usable
+    __dask_tokenize__, not picklable."""
+
+    __dask_tokenize__ = property(lambda self: (_ for _ in ()).throw(AttributeError("no token")))
+
+    def __reduce__(self):
+        raise TypeError("cannot pickle OpaqueSimSource (holds a lock)")
 
 
 def _rebuild_source(a, grid, name):
